@@ -1,5 +1,6 @@
 //! affmc — bounded exhaustive exploration of Conturing/affinitree (see /verif/DESIGN.md)
 mod gen;
+mod hist;
 mod lp;
 mod props;
 mod q;
